@@ -39,6 +39,7 @@ def analyse(ck, res, want):
     distinct = ck.cov.setdefault("_distinct", set())
     validated = 0
     corr = []
+    srccorr = []
     for x in res:
         ck.cov["evaluations"] += 1
         cls = "T=%d/%s/%s" % (x["T"], "enc" if x["ispadding"] else "dec", "yield-in-cs" if x["yield_in_cs"] else "atomic-cs")
@@ -67,11 +68,21 @@ def analyse(ck, res, want):
         if v:
             rep["trace_mismatch"] = v
             corr.append(rep)
+        elif x.get("srcmodel") is not None:
+            v2 = validate_trace(x, "srcmodel")
+            ck.cov["traces_validated_against_translated_protocol"] = ck.cov.get("traces_validated_against_translated_protocol", 0) + 1
+            if v2:
+                rep["trace_mismatch"] = "translated protocol (MiniC threads): " + v2
+                srccorr.append(rep)
         if len(ck.cov["samples"]) < 5:
             ck.cov["samples"].append({"T": x["T"], "direction": "enc" if x["ispadding"] else "dec", "input_len": x["n"], "steps": len(x["steps"]), "schedule_prefix": x["sched"][:80], "output_ok": True, "trace": v or "validated"})
     ck.cov["distinct_nontrivial"] = len(distinct)
     ck.cov["traces_validated_against_model"] = ck.cov.get("traces_validated_against_model", 0) + validated
     ck.cov["disagreements_model_vs_impl"] = ck.cov.get("disagreements_model_vs_impl", 0) + len(corr)
+    ck.cov["disagreements_source_vs_impl"] = ck.cov.get("disagreements_source_vs_impl", 0) + len(srccorr)
+    if srccorr and not corr and not ck.violations:
+        srccorr[0]["broken"] = "correspondence: implementation trace is not an execution of the translated protocol functions under MiniCConc"
+        ck.violation("trace validation against the translated protocol (MiniC thread semantics) fails on %d schedules (%s) although outputs are right" % (len(srccorr), srccorr[0]["trace_mismatch"][:150]), srccorr[0], found_input=False)
     if corr and not ck.violations:
         corr[0]["broken"] = "correspondence: implementation trace is not an execution of PipeConc"
         ck.violation("trace validation against the Coq transition system fails on %d schedules (%s) although outputs are right" % (len(corr), corr[0]["trace_mismatch"][:150]), corr[0], found_input=False)
